@@ -354,7 +354,8 @@ class ReadOnlyParams(_Cfg):
     expected_exceptions = (ReadOnlyError, ValueError)
 
     def instances(self, tier):
-        return [dict(case=c) for c in ('change_read_only', 'change_normal', 'params_dict', 'missing_localvars', 'two_classes_do_not_share')]
+        return [dict(case=c) for c in ('change_read_only', 'change_normal', 'params_dict', 'missing_localvars', 'two_classes_do_not_share',
+                                      'read_only_registered_in_several_calls', 'read_only_of_the_base_class_after_subclass_registration', 'params_after_several_calls')]
 
     def build(self, inst, mk):
         RP = cls_of(COMMON, 'RegisterParams')
@@ -367,6 +368,16 @@ class ReadOnlyParams(_Cfg):
         class Q(RP):
             def __init__(self, a):
                 self._makeAttributeAndRegister('a', localVars=locals())
+
+        class Base(RP):  # like GenericNDimFinDiff: registers its own read-only parameters ...
+            def __init__(self, nvars, order):
+                self._makeAttributeAndRegister('nvars', 'order', localVars=locals(), readOnly=True)
+
+        class Sub(Base):  # ... and the subclass registers more in a later call (like heatNd_unforced: nu)
+            def __init__(self, nvars, order, nu, c):
+                super().__init__(nvars, order)
+                self._makeAttributeAndRegister('nu', localVars=locals(), readOnly=True)
+                self._makeAttributeAndRegister('c', localVars=locals())
 
         st = State(inst=inst, va=mk.real('a'), vb=mk.real('b'))
         c = inst['case']
@@ -386,13 +397,21 @@ class ReadOnlyParams(_Cfg):
                 q = Q(1)
                 q.a = 2  # 'a' is read-only in P only
                 return q.a
+            if c == 'read_only_registered_in_several_calls':
+                s_ = Sub(8, 2, st.va, st.vb)
+                s_.nu = 3
+            if c == 'read_only_of_the_base_class_after_subclass_registration':
+                s_ = Sub(8, 2, st.va, st.vb)
+                s_.nvars = 16
+            if c == 'params_after_several_calls':
+                return Sub(8, 2, st.va, st.vb).params
 
         st.call = call
         return st
 
     def post(self, st, old, result, exc):
         c = st.inst['case']
-        if c == 'change_read_only':
+        if c in ('change_read_only', 'read_only_registered_in_several_calls', 'read_only_of_the_base_class_after_subclass_registration'):
             yield 'read_only_parameter_change_rejected', isinstance(exc, self.ReadOnlyError)
         elif c == 'missing_localvars':
             yield 'missing_values_rejected', isinstance(exc, ValueError)
@@ -402,11 +421,13 @@ class ReadOnlyParams(_Cfg):
                 yield 'normal_parameter_changed', result is st.va
             if exc is None and c == 'params_dict':
                 yield 'params_lists_registered_names_with_values', set(result) == {'a', 'b'} and result['a'] is st.va and result['b'] is st.vb
+            if exc is None and c == 'params_after_several_calls':
+                yield 'params_lists_every_registered_name', set(result) == {'nvars', 'order', 'nu', 'c'} and result['nu'] is st.va and result['c'] is st.vb
             if exc is None and c == 'two_classes_do_not_share':
                 yield 'registration_is_per_class', result == 2
 
     def canary(self, st, old, result, exc):
-        yield 'canary:opposite', (exc is None) == (st.inst['case'] in ('change_read_only', 'missing_localvars'))
+        yield 'canary:opposite', (exc is None) == (st.inst['case'] in ('change_read_only', 'missing_localvars', 'read_only_registered_in_several_calls', 'read_only_of_the_base_class_after_subclass_registration'))
 
 
 class ConvergenceControllerSetup(_Cfg):
